@@ -538,3 +538,8 @@ Arguments OBool {K V} b.
 Arguments OPanic {K V}.
 Arguments OHang {K V}.
 Arguments OSkip {K V}.
+Arguments HB {K V} h.
+Arguments HN {K V} h.
+Arguments HF {K V} h.
+Arguments BNode {K V} k v order children.
+Arguments FNode {K V} k v degree children.
